@@ -126,6 +126,11 @@ Inductive obs :=
 | OSeq | ODeepSeq | OSerde
 | OEqR (l : lit) | OEqL (l : lit)
 | OCtr (c : ctr)                          (* x | c *)
+(* observers that use their (shared) argument twice: [let w = x in ...] *)
+| OEq2 (o1 o2 : obs)                      (* o1 w == o2 w *)
+| OConcat2 (o1 o2 : obs)                  (* o1 w @ o2 w *)
+| OMerge2 (o1 o2 : obs)                   (* o1 w & o2 w *)
+| OElemOf (o1 : obs)                      (* std.array.elem (o1 w) w *)
 (* records *)
 | OAccess (k : string)                    (* x.k *)
 | OGet (k : string)                       (* std.record.get k x *)
@@ -643,6 +648,13 @@ Section Sem.
   Definition same_keys (fs1 fs2 : list field) : bool :=
     forallb (fun f => has_key (fst f) fs2) fs1 && forallb (fun f => has_key (fst f) fs1) fs2.
 
+  (** std.array.elem elt = any (fun x => x == elt), with an arbitrary (lazy) [elt]. *)
+  Fixpoint elem_go (elt : thunk) (xs : list thunk) : res lval :=
+    match xs with
+    | [] => Ok (VBool false)
+    | x :: xs' => bind (ev_bool (TEq x elt)) (fun b => if b then Ok (VBool true) else elem_go elt xs')
+    end.
+
   (** [eq()] of operation.rs on two values in weak head normal form. *)
   Definition eq_whnf (v1 v2 : lval) : res lval :=
     match v1, v2 with
@@ -778,6 +790,15 @@ Section Sem.
     | OEqR l => eq_sem t (thunk_of_lit l)
     | OEqL l => eq_sem (thunk_of_lit l) t
     | OCtr c => apply_ctr true c (ev t)
+    | OEq2 o1 o2 => eq_sem (TObs o1 t) (TObs o2 t)
+    | OConcat2 o1 o2 =>
+        bind (ev (TObs o1 t)) (fun v => bind (as_arr ETypeErr v) (fun '(es1, p1) =>
+        bind (ev (TObs o2 t)) (fun w => bind (as_arr ETypeErr w) (fun '(es2, p2) =>
+        Ok (prim_array_concat es1 p1 es2 p2)))))
+    | OMerge2 o1 o2 => merge_sem (TObs o1 t) (TObs o2 t)
+    | OElemOf o1 =>
+        bind (ev t) (fun v => bind (as_arr EBlameNeg v) (fun '(es, p) =>
+        elem_go (TObs o1 t) (arr_elems es p)))
     | OAccess k =>
         bind (ev t) (fun v => bind (as_rec ETypeErr v) (fun fs =>
         bind (prim_record_access k fs) ev))
